@@ -147,8 +147,20 @@ def check(run, repo, world):
     nuse += check_value_discipline(run, world, SEQ, F, cfg, ys, smod)
     _check_schemes(run, world, smod, F, cfg, ys, fn)
 
+    # ---- no memory between runs -------------------------------------------
+    from ..seq import check_stateless
+    check_stateless(run, "R-DEVSEQ-STATELESS", smod, [
+        (SEQ + "." + n_.name, n_) for n_ in smod.tree.body
+        if isinstance(n_, ast.FunctionDef)], 4)
     # ---- query_input_value -------------------------------------------------
     m, fn, _ = world.func(SEQ + ".query_input_value")
+    if any(isinstance(n, ast.AugAssign) and isinstance(n.value, ast.IfExp)
+           for n in ast.walk(fn)):
+        from ..normal import split_conditional_augassign
+        from ..inline import acopy as _acp
+        fq = _acp(fn)
+        if split_conditional_augassign(fq):
+            fn = fq
     fn = normalise(fn, world, SEQ, primitives=("check_bad_rsp",),
                    aliases="params")
     F = SEQ + ".query_input_value"
@@ -692,20 +704,28 @@ def _check_schemes(run, world, mod, F, cfg, ys, fn):
     # validation EventScheme(pos) before first yield, DTR0 carries pos
     first = min((y.node.lineno for y in ys), default=0)
     val = None
+    from .. import astq as _astq
     for n in cfg.reachable:
         if n.kind == "stmt" and n.lineno < first:
             for c in _walk_no_nested(n.ast):
-                if isinstance(c, ast.Call) and not isinstance(
-                        n.ast, ast.Assign):
+                if isinstance(c, ast.Call):
                     k = world.resolve_class(SEQ, c.func)
                     if k is not None and k.qname == DG + "EventScheme" and \
                             c.args:
-                        val = unparse(c.args[0])
+                        # the member lookup is the validation (ValueError
+                        # for an undefined number), wherever it is written
+                        val = _astq.canon(fn, c.args[0], calls=True)
     d0 = [y for y in ys if _short(_q(y)) == "DTR0"]
+
+    def carries(a):
+        if a is None or val is None:
+            return False
+        t = _astq.canon(fn, a, calls=True)
+        return t == val or (t.endswith(").value") and t[:-len(".value")]
+                            .endswith("(%s)" % val))
     run.ob("R-DEVSEQ-ORDER", F + "#validate-scheme",
            val is not None and bool(d0) and all(
-               y.arg(0) is not None and unparse(y.arg(0)) == val
-               for y in d0),
+               carries(y.arg(0)) for y in d0),
            "the scheme must be validated with EventScheme(<v>) before the "
            "first command and DTR0 must carry the same <v> (validated %s)"
            % val, where(mod, fn))
@@ -1507,11 +1527,31 @@ def _check_bad_rsp(run, world, mod):
                 c = world.resolve_class(HLP, e)
                 names.add(c.qname if c else unparse(e))
             if {"dali.exceptions.MissingResponse",
-                    "dali.exceptions.ResponseError"} <= names and any(
-                        isinstance(x, ast.Return) and isinstance(
-                            x.value, ast.Constant) and x.value.value is True
-                        for x in n.body):
-                checks["exceptions"] = True
+                    "dali.exceptions.ResponseError"} <= names:
+                # every path that goes through this handler answers "bad"
+                # (the handler may return True itself or fall through to a
+                # `return True` that follows: `with suppress(...)`)
+                from ..cfg import CFG as _CFG, default_may_raise as _dmr
+                hcfg = _CFG(fn, may_raise=_dmr, name=F)
+                starts = [x for x in hcfg.reachable if x.kind == "except"
+                          and x.ast is n]
+                okh = bool(starts)
+                seen_, stack_ = set(), list(starts)
+                while stack_ and okh:
+                    x = stack_.pop()
+                    if x.id in seen_:
+                        continue
+                    seen_.add(x.id)
+                    if x.kind == "stmt" and isinstance(x.ast, ast.Return):
+                        okh = isinstance(x.ast.value, ast.Constant) and \
+                            x.ast.value.value is True
+                        continue
+                    if x is hcfg.exit:
+                        okh = False
+                        break
+                    stack_ += [m_ for (l_, m_) in x.succ if l_ != "exc"]
+                if okh:
+                    checks["exceptions"] = True
     for k, v in checks.items():
         run.ob("R-BADRSP", "%s#%s" % (F, k), v,
                "check_bad_rsp no longer classifies the %s case as bad "
